@@ -220,7 +220,15 @@ func (i *Iterator) autoNext(ctx context.Context) bool {
 		return false
 	}
 	if endApprox.Lower.After(i.bounds.End) {
-		return i.Next(ctx, i.view.Start.Span(i.bounds.End))
+		span := i.view.Start.Span(i.bounds.End)
+		if span <= 0 {
+			// The view already sits at or past the end of the bounds (a seek to a
+			// timestamp outside the bounds put it there); a span of -1 is AutoSpan and
+			// would recurse forever.
+			i.reset(i.bounds.End.SpanRange(0))
+			return false
+		}
+		return i.Next(ctx, span)
 	}
 	i.view.End = endApprox.Lower
 	i.reset(i.view.BoundBy(i.bounds))
@@ -280,7 +288,12 @@ func (i *Iterator) autoPrev(ctx context.Context) bool {
 		return false
 	}
 	if startApprox.Lower.Before(i.bounds.Start) {
-		return i.Prev(ctx, i.bounds.Start.Span(i.view.End))
+		span := i.bounds.Start.Span(i.view.End)
+		if span <= 0 {
+			i.reset(i.bounds.Start.SpanRange(0))
+			return false
+		}
+		return i.Prev(ctx, span)
 	}
 	i.view.Start = startApprox.Lower + 1
 	i.reset(i.view.BoundBy(i.bounds))
